@@ -41,6 +41,14 @@ func (s *Server) GetSession(w http.ResponseWriter, r *http.Request, req *saml.Id
 			return nil
 		}
 
+		// a password that cannot have been set cannot be the user's password,
+		// whatever bcrypt makes of it
+		if !validPassword(r.PostForm.Get("password")) {
+			s.logger.Printf("ERROR: Invalid password for user '%s'", r.PostForm.Get("user"))
+			s.sendLoginForm(w, req, "Invalid username or password")
+			return nil
+		}
+
 		if err := bcrypt.CompareHashAndPassword(user.HashedPassword, []byte(r.PostForm.Get("password"))); err != nil {
 			s.logger.Printf("ERROR: Invalid password for user '%s'", r.PostForm.Get("user"))
 			s.sendLoginForm(w, req, "Invalid username or password")
